@@ -160,7 +160,7 @@ fn structural_exhaustive(run: &mut Run, name: &str, hits_only: bool) {
                     kfs.reverse();
                 }
                 let timing = Timing { cycle: 4.0, delay: 2.0, repeat: [Rep::None, Rep::Times(1), Rep::Times(2)][(tv % 3) as usize], reverse: tv >= 3 };
-                let desc = TlDesc { timing, default_ez: Ez::Linear, kfs };
+                let desc = TlDesc { timing, default_ez: Ez::Linear, kfs, order: (idx % 4) as u8 };
                 let model = ModelTl::new(&desc);
                 let mut tl = desc.build();
                 let start = Vals { a: 1024.0, b: -2048.0, c: 4096, d: 9 };
@@ -266,7 +266,7 @@ fn dyadic_kf_strategy() -> impl Strategy<Value = KfDesc> {
 
 pub fn c02_strategy() -> impl Strategy<Value = C02Case> {
     (dyadic_timing_strategy(), ez_strategy(), prop::collection::vec(dyadic_kf_strategy(), 0..=7), prop::option::weighted(0.3, vals_strategy())).prop_map(|(timing, default_ez, kfs, start)| {
-        let tl = TlDesc { timing, default_ez, kfs }.sanitize();
+        let tl = TlDesc { timing, default_ez, kfs, order: 0 }.sanitize();
         let back = tl.uses_back();
         C02Case { tl, start: start.map(|v| sanitize_vals(v, back)) }
     })
